@@ -20,8 +20,14 @@ def model_is_demanded(r):
 ALPHA = [0x00, 0x01, 0x1e, 0x1f, 0x20, 0x7f, 0x80, 0x81, 0xbf, 0xc0, 0xff]
 NUMS = [0, 30, 31, 127, 128, 16383, 16384, 0x1FFFFF]
 
+CONSTS = ['END_OF_VALUE', 'BOOLEAN', 'INTEGER', 'BIT_STRING', 'OCTET_STRING', 'NULL', 'OID', 'OBJECT_DESCRIPTOR', 'EXTERNAL', 'REAL', 'ENUMERATED', 'EMBEDDED_PDV', 'UTF8_STRING', 'RELATIVE_OID', 'TIME', 'SEQUENCE', 'SET', 'NUMERIC_STRING', 'PRINTABLE_STRING', 'TELETEX_STRING', 'VIDEOTEX_STRING', 'IA5_STRING', 'UTC_TIME', 'GENERALIZED_TIME', 'GRAPHIC_STRING', 'VISIBLE_STRING', 'GENERAL_STRING', 'UNIVERSAL_STRING', 'CHARACTER_STRING', 'BMP_STRING', 'DATE', 'TIME_OF_DAY', 'DATE_TIME', 'DURATION', 'OID_IRI', 'RELATIVE_OID_IRI', 'CTX_0', 'CTX_1', 'CTX_2', 'CTX_3', 'CTX_4', 'CTX_5', 'CTX_6']
+
 def gen(tier, rng):
     out = []
+    # every named constant of Tag must be the tag of the class and number its name stands for
+    # (added after the mutation run: constants no reader uses were not observed by any request)
+    for n in CONSTS:
+        out.append("tag.const " + n)
     w = 40
     for cls in range(4):
         seen = set()
